@@ -543,7 +543,9 @@ func DeleteConflicts(uuid dvid.UUID, data DataService, oldParents, newParents []
 			return err
 		}
 		parentsV[i] = oldV
-		if newParents[i] != dvid.NilUUID {
+		// After an earlier call (another data instance of the same resolve request) a parent
+		// without an extension node is listed as its own replacement: it still has none.
+		if newParents[i] != dvid.NilUUID && newParents[i] != oldUUID {
 			newV, err := manager.versionFromUUID(newParents[i])
 			if err != nil {
 				return err
